@@ -61,7 +61,7 @@ var mrkRe = regexp.MustCompile(`MRK off by (\d+)`)
 
 // StampText is the text of version n of document d (journal profile + marker).
 func StampText(d, n int, extra string) string {
-	return fmt.Sprintf("; doc d%d version %d\n%s2024-01-01 stamp d%d v%d\n    v:d%d:v%d    %d MRK\n    v:sink          0 MRK\n", d, n, extra, d, n, d, n, n+1)
+	return fmt.Sprintf("; doc d%d version %d\n%s2024-01-01 stamp d%d v%d\n    v:d%d:v%d    %d MRK\n    v:sink          0 MRK\n2024-03-01 stamp d%d v%d\n\n", d, n, extra, d, n, d, n, n+1, d, n)
 }
 
 // publishMarkers extracts the MRK residuals of a publishDiagnostics payload.
